@@ -64,20 +64,33 @@ partial def hasNonFinite : Exp (Ext Rat) → Bool
   | .min es | .max es | .and es | .or es => es.any hasNonFinite
   | .xor a b | .implies a b | .iff a b | .bin _ a b => hasNonFinite a || hasNonFinite b
 
-/-- hypothesis of `simplify_sound_partial`: every operand of an and/or node has a value in {0,1}. -/
-partial def logicOperands01 (ρ : String → Rat) : Exp (Ext Rat) → Bool
+/-- value in {0,1} when defined. -/
+def is01 : Option Rat → Bool
+  | some v => v == 0 || v == 1
+  | none => true
+
+mutual
+/-- hypothesis of `simplify_sound_partial`: every operand of an and/or node has a value in {0,1}.
+Total (structural on the tree) so that `Rooc.Props.C10.logicOperands01_reflects` can relate it to the
+Prop `LogicOperands01` the theorems use. -/
+def logicOperands01 (ρ : String → Rat) : Exp (Ext Rat) → Bool
   | .num _ | .var _ => true
   | .abs e | .not e | .un _ e => logicOperands01 ρ e
-  | .min es | .max es => es.all (logicOperands01 ρ)
-  | .and es | .or es => es.all fun o => logicOperands01 ρ o && is01 (eval ρ o)
+  | .min es | .max es => logicOperands01All ρ es
+  | .and es | .or es => logicOperands01Ops ρ es
   | .xor a b | .implies a b | .iff a b => logicOperands01 ρ a && logicOperands01 ρ b
   | .bin .and a b | .bin .or a b =>
     logicOperands01 ρ a && logicOperands01 ρ b && is01 (eval ρ a) && is01 (eval ρ b)
   | .bin _ a b => logicOperands01 ρ a && logicOperands01 ρ b
-where
-  is01 : Option Rat → Bool
-    | some v => v == 0 || v == 1
-    | none => true
+/-- `es.all (logicOperands01 ρ)` -/
+def logicOperands01All (ρ : String → Rat) : List (Exp (Ext Rat)) → Bool
+  | [] => true
+  | e :: es => logicOperands01 ρ e && logicOperands01All ρ es
+/-- `es.all fun o => logicOperands01 ρ o && is01 (eval ρ o)` -/
+def logicOperands01Ops (ρ : String → Rat) : List (Exp (Ext Rat)) → Bool
+  | [] => true
+  | o :: es => (logicOperands01 ρ o && is01 (eval ρ o)) && logicOperands01Ops ρ es
+end
 
 /-- literal that absorbs its context: 0 under `*`/`and`, truthy under `or`. -/
 def simplifiesTo (e : Exp (Ext Rat)) (p : Rat → Bool) : Bool :=
